@@ -114,8 +114,11 @@ func (c *Authority) VerifyPartialCert(cert hotstuff.PartialCert) error {
 
 // VerifyQuorumCert verifies a quorum certificate.
 func (c *Authority) VerifyQuorumCert(qc hotstuff.QuorumCert) error {
-	// genesis QC is always valid.
+	// genesis QC is always valid, but only for the genesis view.
 	if qc.BlockHash() == hotstuff.GetGenesis().Hash() {
+		if qc.View() != hotstuff.GetGenesis().View() {
+			return fmt.Errorf("genesis quorum certificate has view %d", qc.View())
+		}
 		return nil
 	}
 
@@ -133,6 +136,10 @@ func (c *Authority) VerifyQuorumCert(qc hotstuff.QuorumCert) error {
 	block, ok := c.blockchain.Get(qc.BlockHash())
 	if !ok {
 		return fmt.Errorf("block not found: %v", qc.BlockHash())
+	}
+	// the certificate must claim the view of the block it certifies.
+	if qc.View() != block.View() {
+		return fmt.Errorf("quorum certificate view %d does not match block view %d", qc.View(), block.View())
 	}
 	return c.Verify(qc.Signature(), block.ToBytes())
 }
